@@ -232,6 +232,17 @@ def run(ctx: Ctx):
                     ctx.fail(cons, d.where(),
                              f"{ci.name}.{d.attr_name} is initialised to a list but declared "
                              f"scalar ({ast.unparse(ann)})", rule="C03-R5")
+                init = list_init.get(d.attr_name) if is_msg else None
+                if isinstance(init, ast.Assign):
+                    shared = [t.attr for t in init.targets if isinstance(t, ast.Attribute)]
+                    if len(shared) > 1:
+                        ctx.fail(f"{cons}#own-list", ci.loc(init),
+                                 f"{ci.name}.{d.attr_name} is initialised by a chained assignment "
+                                 f"that binds ONE list object to {', '.join(shared)}: an AVP "
+                                 f"decoded into one attribute appears in the others and is "
+                                 f"encoded under their codes", rule="C03-R5",
+                                 expected="one fresh list per list attribute",
+                                 observed=ast.unparse(init))
         # R4 (declaration -> definition)
         for n in own_decl:
             ctx.inst(f"{ci.name}.{n}", rule="C03-R4", nontrivial=False)
